@@ -27,7 +27,9 @@ def run(ctx):
     base = dict(NMods=2, NLeaf=1, ParSizes=[2, 3], ParRg=[True, False], Names={"a", "b"}, MaxSeq=1, MaxHist=0, Acts=ALL)
     HC.model_check(rep, "Modules", "Modules_mc", dict(base, NMods=2 if q else 3, MaxSeq=1), INV, PROPS, timeout=10000, depth=5 if q else 7)
     runs = [("hist3", dict(base, MaxHist=3), 80000 if q else None),
-            ("hist4-narrow", dict(base, NLeaf=0, Names={"a"}, ParSizes=[2], ParRg=[True], MaxSeq=0, MaxHist=4, Acts={"setattr", "mode", "freeze"}), 60000 if q else None)]
+            ("hist4-narrow", dict(base, NLeaf=0, Names={"a"}, ParSizes=[2], ParRg=[True], MaxSeq=0, MaxHist=4, Acts={"setattr", "mode", "freeze"}), 60000 if q else None),
+            # gradients held by parameters across freeze / zero_grad / unfreeze
+            ("hist5-grads", dict(base, NMods=1, NLeaf=0, Names={"a"}, ParSizes=[2], ParRg=[True], MaxSeq=0, MaxHist=5, Acts={"setattr", "grad", "freeze", "zero"}), 60000 if q else None)]
     if not q:
         runs.append(("hist4-tree", dict(base, NMods=2, NLeaf=1, Names={"a"}, ParSizes=[2], ParRg=[True], MaxSeq=0, MaxHist=4,
                                         Acts={"setattr", "mode", "zero", "grad"}), 400000))
